@@ -174,7 +174,15 @@ def check_d4(chk, m, prog):
                 continue
             chk.note_fn(f)
             heads = f.loops_headers()
-            chk.ob("D4.no-loop", f.name, not heads, "no loop in %s (terminates on every structure)" % f.name, f.loc, f.name)
+            counted = {h: f.counted_loop(h) for h in heads}
+            if heads and all(counted.values()):
+                chk.ob("D4.no-loop", f.name, True, "every loop in %s is counted by a constant (%s): terminates on every structure"
+                       % (f.name, "; ".join("at most %d rounds, %s" % c for c in counted.values())), f.loc, f.name)
+            elif heads:
+                chk.unknown("D4.no-loop", f.name, "%s contains a loop that is not counted by a constant (%s): termination on every "
+                            "structure is not decided" % (f.name, ", ".join(h for h in heads if not counted[h])), f.loc)
+            else:
+                chk.ob("D4.no-loop", f.name, True, "no loop in %s (terminates on every structure)" % f.name, f.loc, f.name)
             # ... and no recursion: a helper that can reach itself through calls recurses on attacker-chosen fields
             rec = [c for c in f.calls() if c.callee and m.has_fn(c.callee) and f in prog.closure(m.functions[c.callee])]
             chk.ob("D4.no-recursion", f.name, not rec,
